@@ -330,6 +330,8 @@ class MDict(Model):
       up[self.v("size")] = B.ite(h, size, B.add(size, K(1)))
       room = B.or_(h, B.ult(size, K(n)))
       return [(room, "ok", K(NONE), up), (B.not_(room), "exc:ModelCapacity", None, {})]
+    if op == "get_default":   # d.get(key, default)
+      return [(T, "ok", B.ite(has(ks, args[0]), lookup(args[0]), args[1]), {})]
     if op == "iter":          # items()/keys()/values() iterator: remembers the size
       return [(T, "ok", size, {})]
     if op == "next":          # args: (index, size at iter) -> (key, value) | StopIteration | RuntimeError
